@@ -112,11 +112,19 @@ func runC17(in *Sx) *Sx {
 	f.Use(flamego.Renderer(opt))
 	reqs := in.Field("reqs").Args()
 	nested := in.Field("nested").Args()[0].Atom == "1"
+	prect := false
+	if p := in.Field("prect"); p != nil {
+		prect = p.Args()[0].Atom == "1"
+	}
 	var inner *wireWriter
 	for i, q := range reqs {
 		q := q
 		i := i
-		f.Get("/r"+string(rune('0'+i)), func(c flamego.Context) {}, func(c flamego.Context, r flamego.Render) {
+		f.Get("/r"+string(rune('0'+i)), func(c flamego.Context) {
+			if prect { // an earlier handler left a content type behind: the renderer's must replace it
+				c.ResponseWriter().Header().Set("Content-Type", "stale/type")
+			}
+		}, func(c flamego.Context, r flamego.Render) {
 			if nested && i == 0 && len(reqs) > 1 {
 				// a sub-request through the same application before this request renders
 				inner = &wireWriter{hdr: http.Header{}}
@@ -153,7 +161,7 @@ func runC17(in *Sx) *Sx {
 }
 
 func genC17(rng *rand.Rand, n int, tier string, emit func(*Sx)) {
-	strs := []string{"", "a", "hello world", "<&>\"'", "é☃", "line\nbreak", "\t", "{}[]", "x\x00y"}
+	strs := []string{"", "a", "hello world", "<&>\"'", "é☃", "line\nbreak", "\t", "{}[]", "100%", "%s %d%%", "x\x00y"}
 	codes := []int{200, 201, 202, 400, 404, 418, 500, 503}
 	for i := 0; i < n; i++ {
 		var reqs []*Sx
@@ -164,7 +172,7 @@ func genC17(rng *rand.Rand, n int, tier string, emit func(*Sx)) {
 				kind := []string{"json", "xml"}[rng.Intn(2)]
 				pool := strs
 				if kind == "xml" {
-					pool = strs[:8] // NUL is not encodable in XML
+					pool = strs[:10] // NUL is not encodable in XML
 				}
 				var tags []*Sx
 				for t := rng.Intn(3); t > 0; t-- {
@@ -184,7 +192,7 @@ func genC17(rng *rand.Rand, n int, tier string, emit func(*Sx)) {
 			}
 		}
 		emit(T("in", T("charset", X([]string{"", "", "utf-8", "iso-8859-1", "gbk"}[rng.Intn(5)])), T("jindent", X([]string{"", "", "  ", "\t"}[rng.Intn(4)])),
-			T("xindent", X([]string{"", "", "  ", "\t"}[rng.Intn(4)])), T("early", B(rng.Intn(12) == 0)), T("nested", B(rng.Intn(3) == 0)), T("reqs", reqs...)))
+			T("xindent", X([]string{"", "", "  ", "\t"}[rng.Intn(4)])), T("early", B(rng.Intn(12) == 0)), T("nested", B(rng.Intn(3) == 0)), T("prect", B(rng.Intn(4) == 0)), T("reqs", reqs...)))
 	}
 }
 
